@@ -12,8 +12,7 @@
 (* Enc1 returns [ok, b]; ok = FALSE is the writer's error (a tuple whose   *)
 (* length differs from its size parameter).  Dec1 is total on arbitrary    *)
 (* byte sequences and returns [ok, v, pos] (pos = next unread index).      *)
-(* Sanity models --checkLengthSanity: an announced element count c is      *)
-(* rejected when c * 4 exceeds the remaining bytes (the code's constant).  *)
+(* Sanity = the --checkLengthSanity option: it must not change verdicts.   *)
 (***************************************************************************)
 EXTENDS TLSchema
 
@@ -35,7 +34,7 @@ EncFields1(t, env, v, i) ==
            here == IF ~IsOpt(f) THEN Enc1(f.t, cenv, v[i], f.bare)
                    ELSE IF NatMasked(f) THEN
                           (IF MaskOn(f, env, t, v)
-                           THEN Enc1(f.t, cenv, IF v[i].p THEN v[i].v ELSE Default(f.t, cenv), f.bare)
+                           THEN Enc1(f.t, cenv, IF IsP(v[i]) /\ ~f.isbit THEN PV(v[i]) ELSE Default(f.t, cenv), f.bare)
                            ELSE OKB(<<>>))
                    ELSE OKB(<<>>)        \* TL2-only optional field: no TL1 form
        IN Cat(here, EncFields1(t, env, v, i + 1))
@@ -56,6 +55,22 @@ Enc1(tn, env, v, bare) ==
          ELSE LET sz == ArraySize(t, env) IN
               IF IsSmall(sz) /\ N4(sz) = Len(v) THEN EncElems1(t, env, v, 1) ELSE ErrB
     [] t.k = "dict"   -> Cat(OKB(B4(Len(v))), EncElems1(t, env, v, 1))
+
+(* does v contain a non-empty counted array / dynamic tuple whose elements take less *)
+(* than 4 bytes each on average?  (the only values a fixed "4 bytes per element"     *)
+(* sanity rule can wrongly refuse)                                                   *)
+RECURSIVE SmallElems(_, _, _)
+SmallElems(tn, env, v) ==
+  LET t == TY(tn) IN
+  CASE t.k = "prim" -> FALSE
+    [] t.k = "struct" ->
+         \E i \in 1..Len(t.fields) :
+            LET f == t.fields[i] cenv == ArgsVal(f.na, env, t, v) IN
+            IF IsOpt(f) THEN IsP(v[i]) /\ ~f.isbit /\ SmallElems(f.t, cenv, PV(v[i])) ELSE SmallElems(f.t, cenv, v[i])
+    [] t.k = "union" -> SmallElems(t.variants[v.i], ArgsVal(t.elemNa, env, t, <<>>), v.v)
+    [] t.k \in {"array", "dict"} ->
+         \/ (Len(v) > 0 /\ (t.k = "dict" \/ ~t.tuple \/ t.dyn) /\ Len(EncElems1(t, env, v, 1).b) < 4 * Len(v))
+         \/ \E j \in 1..Len(v) : SmallElems(t.elem.t, ArgsVal(t.elem.na, env, t, <<>>), v[j])
 
 ---------------------------------------------------------------------------
 (* dictionaries are decoded into maps: sorted by key, the last duplicate wins *)
@@ -113,19 +128,27 @@ DecFields1(t, env, b, pos, i, acc) ==
              IF r.ok THEN DecFields1(t, env, b, r.pos, i + 1, Append(acc, r.v)) ELSE r)
           ELSE IF NatMasked(f) /\ MaskOn(f, env, t, acc) THEN
             (LET r == Dec1(f.t, cenv, b, pos, f.bare) IN
-             IF r.ok THEN DecFields1(t, env, b, r.pos, i + 1, Append(acc, Pres(r.v))) ELSE r)
+             IF r.ok THEN DecFields1(t, env, b, r.pos, i + 1, Append(acc, Pres(FDefault(f, r.v)))) ELSE r)
           ELSE DecFields1(t, env, b, pos, i + 1, Append(acc, Absent))
 DecElems1(t, env, b, pos, n, acc) ==
   IF n = 0 THEN OKV(acc, pos)
   ELSE LET r == Dec1(t.elem.t, ArgsVal(t.elem.na, env, t, <<>>), b, pos, t.elem.bare) IN
        IF r.ok THEN DecElems1(t, env, b, r.pos, n - 1, Append(acc, r.v)) ELSE r
-(* an announced element count c: "go" (enumerate), "rej" (sanity rule), "unk" *)
+(* An announced element count c.  The length-sanity option is a safeguard against   *)
+(* allocation amplification and must be invisible in the accept/reject verdict: a   *)
+(* count is refused early only when the remaining bytes cannot hold that many       *)
+(* elements, which the element-wise decoding below decides anyway.  Counts that are *)
+(* too large to enumerate here ("unk") are exact rejections when the rule is on and *)
+(* every element occupies at least 4 bytes, otherwise outside the model.            *)
 Tiny(c) == c[3] = 0 /\ c[4] = 0 /\ c[2] < 16            \* < 4096
-CountVerdict(c, b, pos, sanityApplies) ==
-  IF Tiny(c) THEN (IF sanityApplies /\ Sanity /\ N4(c) * 4 > Avail(b, pos) THEN "rej" ELSE "go")
-  ELSE IF sanityApplies /\ Sanity /\ Avail(b, pos) < 16384 THEN "rej" ELSE "unk"
+ElemAtLeast4(t) == LET e == TY(t.elem.t) IN
+                   (e.k = "prim" /\ e.prim # "bit") \/ e.k \in {"union", "dict"} \/ (e.k = "array" /\ ~e.tuple)
+                   \/ (e.k = "struct" /\ ~t.elem.bare)
+CountVerdict(t, c, b, pos, sanityApplies) ==
+  IF Tiny(c) THEN "go"
+  ELSE IF sanityApplies /\ Sanity /\ ElemAtLeast4(t) /\ Avail(b, pos) < 16384 THEN "rej" ELSE "unk"
 DecCounted(t, env, b, pos, c, sanityApplies) ==
-  LET cv == CountVerdict(c, b, pos, sanityApplies) IN
+  LET cv == CountVerdict(t, c, b, pos, sanityApplies) IN
   IF cv = "rej" THEN ErrV ELSE IF cv = "unk" THEN ErrU ELSE DecElems1(t, env, b, pos, N4(c), <<>>)
 Dec1(tn, env, b, pos, bare) ==
   LET t == TY(tn) IN
